@@ -1267,10 +1267,14 @@ def sqlalchemy_class_to_table(class_def, parse_original_whitespace):
         :return: Unwrapped Call with name prepended
         :rtype: ```Call```
         """
-        assign.value.args.insert(
-            0, cdd.shared.ast_utils.set_value(assign.targets[0].id)
+        return Call(
+            func=assign.value.func,
+            args=[cdd.shared.ast_utils.set_value(assign.targets[0].id)]
+            + assign.value.args,
+            keywords=assign.value.keywords,
+            lineno=None,
+            col_offset=None,
         )
-        return assign.value
 
     return Call(
         func=Name("Table", Load(), lineno=None, col_offset=None),
